@@ -110,7 +110,20 @@ func c14FailBool(rt *rapid.T, st *facts.State) (gast.Expr, string, func() gast.E
 
 // c14JoinCond puts the failing expression into the rule's condition (alone, and-ed, or-ed on either side).
 func c14JoinCond(rt *rapid.T, r *gast.Rule, failBool gast.Expr) {
-	switch rapid.IntRange(0, 4).Draw(rt, "fail_join") {
+	switch rapid.IntRange(0, 5).Draw(rt, "fail_join") {
+	case 5:
+		// the condition as a whole is not boolean although everything in it evaluates fine (it stays
+		// remembered from cycle to cycle, unlike a condition that fails below its top node)
+		var e gast.Expr = gast.P("F", "I64")
+		switch rapid.IntRange(0, 3).Draw(rt, "non_boolean_kind") {
+		case 1:
+			e = &gast.Bin{Op: gast.OpAdd, L: gast.P("F", "I64"), R: gast.I(1)}
+		case 2:
+			e = &gast.Bin{Op: gast.OpAdd, L: gast.P("F", "S2"), R: gast.S("x")}
+		case 3:
+			e = &gast.Call{Recv: gast.P("F"), Name: "Add64", Args: []gast.Expr{gast.I(1), gast.I(2)}}
+		}
+		r.When = e
 	case 0:
 		r.When = failBool
 	case 4:
